@@ -6,7 +6,11 @@ outside the listed don't-care points).
 K1 (b): constructions of generated node classes mixing conforming and non-conforming fields, with
 `config.RUNTIME_TYPE_CHECK` on and off: success / `InvalidTypes.invalid_fields` (as a sorted list of
 names) vs. the model's `construct`; in-process oracle: the node built with the switch off is the
-same as the one built with it on."""
+same as the one built with it on.  The generated classes carry every dataclass flag combination
+(init / init=False + default, compare / compare=False, positional / kw_only, defaults used or
+overridden); a quarter of them come as pairs of SAME-NAMED classes with unrelated annotations that
+are constructed alternately (so nothing may be remembered per class name), and the Field objects
+in `invalid_fields` must be the very objects of `dataclasses.fields(cls)`."""
 from __future__ import annotations
 
 import dataclasses
@@ -39,8 +43,11 @@ RULE = ("(annotation, value) pairs: annotations drawn from the accepted grammar 
         "0/1, floats incl. integral ones, strings, bytes, None, members of two enums sharing a member name, nodes of "
         "every zoo class, origins, tuples/lists/frozensets/dicts of these); thorough additionally enumerates all "
         "annotations of depth <= 2 over 8 atoms x a fixed value pool; constructions: generated node classes "
-        "(1-6 own fields, child and property fields, init=False fields with defaults, optional inheritance) with every "
-        "field independently conforming or damaged, switch on and off; non-trivial = annotation of depth >= 1 or a "
+        "(1-6 own fields, child and property fields, every dataclass flag combination: init / init=False with default, "
+        "compare / compare=False, positional / kw_only with or without default, defaults used or overridden, optional "
+        "inheritance; a quarter of them as PAIRS of same-named classes with unrelated annotations, constructed "
+        "alternately in both orders) with every field independently conforming or damaged, switch on and off; the "
+        "Field objects of InvalidTypes.invalid_fields must be the very objects of dataclasses.fields(cls); non-trivial = annotation of depth >= 1 or a "
         "container value (matrix), >= 2 fields (constructions); distinct by request line")
 TRUSTED = ["CPython isinstance() per (value kind, plain class), iteration of str/bytes, == between bool/int/float, "
            "typing.get_origin/get_args normal forms (Union flattening, Literal de-duplication) are modelled",
@@ -198,14 +205,20 @@ def _gen_field_value(vals, ty, rng, child: bool, want_ok: bool):
     return () if child and ty[0] in ("tv", "tf") else None
 
 
-def _build(cls, kwargs, gate: bool):
+def _build(cls, args, kwargs, gate: bool):
     old = pconfig.RUNTIME_TYPE_CHECK
     pconfig.RUNTIME_TYPE_CHECK = gate
     try:
         try:
-            return cls(**kwargs), dumps([A("ok")])
+            return cls(*args, **kwargs), dumps([A("ok")])
         except InvalidTypes as e:
             names = sorted(f.name for f in e.invalid_fields)
+            # the reported fields are fields *of the class being built* (the very Field objects of
+            # dataclasses.fields(cls)), each at most once
+            own = {f.name: f for f in dataclasses.fields(cls)}
+            foreign = sorted({f.name for f in e.invalid_fields if own.get(f.name) is not f})
+            if foreign:
+                return None, dumps([A("raise"), A("InvalidTypes"), [A("not-fields-of-the-class")] + foreign] + names)
             return None, dumps([A("raise"), A("InvalidTypes")] + names)
         except Exception as e:  # noqa
             return None, dumps([A("raise"), A("other:" + type(e).__name__)])
@@ -227,78 +240,147 @@ def _same_node(a, b) -> str | None:
     return None
 
 
+STATS = {"classes": 0, "class_definitions_refused": 0, "refusal_kinds": {}, "same_named_pairs": 0,
+         "fields_by_flags": {}}
+
+
+def extra_coverage():
+    return {"constructions": STATS}
+
+
+class _Plan:
+    """a generated node class (optionally with a generated base class) as the harness knows it"""
+
+    def __init__(self, cls, fields):
+        self.cls = cls
+        self.fields = fields      # dicts: name ty init child compare kw_only has_default default
+
+
+def _flags_text(f) -> str:
+    fl = [k for k, on in (("init=False", not f["init"]), ("compare=False", not f["compare"]),
+                          ("kw_only", f["kw_only"]), ("default", f["init"] and f["has_default"])) if on]
+    return f" [{', '.join(fl)}]" if fl else ""
+
+
+def _gen_plan(rng, vals, names):
+    """names: class names, base first.  Every flag combination of a dataclass field occurs: init / init=False with
+    a default, compare / compare=False, positional / kw_only (with or without default)."""
+    fid = itertools.count()
+    p_ok = rng.choice([1.0, 0.8, 0.6, 0.3])
+    cls = ASTNode
+    fields = []
+    for cname in names:
+        lv = []
+        for _k in range(rng.randint(1, 4) if len(names) == 1 else rng.randint(1, 3)):
+            child = rng.random() < 0.35
+            ty = z.gen_child_ty(rng) if child else z.gen_ty(rng, rng.choice([0, 1, 1, 2]), nodes=False, origin=False)
+            if not child and rng.random() < 0.15:
+                ty = ("nt", f"NTf{next(z._nt_counter)}", ty)      # top-level NewType (unwrapped by pyoak)
+            f = {"name": f"f{next(fid)}", "ty": ty, "child": child,
+                 "init": rng.random() < (0.85 if child else 0.7),
+                 "compare": rng.random() < (0.8 if child else 0.55),
+                 "kw_only": rng.random() < 0.35, "has_default": False, "default": None}
+            if not f["init"]:
+                f["kw_only"] = False
+                f["has_default"] = True
+            elif f["kw_only"] and rng.random() < 0.5:
+                f["has_default"] = True
+            if f["has_default"]:
+                v = _gen_field_value(vals, ty, rng, child, rng.random() < p_ok)
+                if not z._hashable(v):          # dataclasses refuse list / dict / set defaults
+                    v = _gen_field_value(vals, ty, rng, child, True)
+                    if not z._hashable(v):
+                        v = () if child and ty[0] in ("tv", "tf") else None
+                f["default"] = v
+            lv.append(f)
+        # positional required fields first (dataclass rule), the rest keeps its order
+        lv.sort(key=lambda f: 0 if (f["init"] and not f["kw_only"]) else 1)
+        try:
+            cls = z.make_node_class_flags(cname, [(f["name"], z.render(f["ty"]), f["init"], f["compare"], f["kw_only"],
+                                                   f["has_default"], f["default"]) for f in lv], base=cls)
+        except Exception as e:  # noqa  (class definition is not the subject of C13)
+            STATS["class_definitions_refused"] += 1
+            STATS["refusal_kinds"][type(e).__name__] = STATS["refusal_kinds"].get(type(e).__name__, 0) + 1
+            return None
+        STATS["classes"] += 1
+        fields += lv
+    return _Plan(cls, fields), p_ok
+
+
+def _construct_cases(rng, vals, toks, plan, p_ok, note=""):
+    """one construction of the planned class with fresh values, switch on and off"""
+    cls = plan.cls
+    values, args, kwargs = {}, [], {}
+    positional = rng.random() < 0.3
+    for f in plan.fields:
+        if not f["init"]:
+            values[f["name"]] = f["default"]
+            continue
+        if f["has_default"] and rng.random() < 0.5:
+            values[f["name"]] = f["default"]       # left to the default
+            continue
+        v = _gen_field_value(vals, f["ty"], rng, f["child"], rng.random() < p_ok)
+        values[f["name"]] = v
+        if positional and not f["kw_only"] and len(args) == len([g for g in plan.fields[:plan.fields.index(f)]
+                                                                if g["init"] and not g["kw_only"]]):
+            args.append(v)
+        else:
+            kwargs[f["name"]] = v
+    bad_origin = rng.random() < 0.06
+    org = 5 if bad_origin else rng.choice([NO_ORIGIN, z.CODE_ORIGIN])
+    kwargs["origin"] = org
+    fields_sx = [["id", A("str"), [A("s"), ""]], ["content_id", A("str"), [A("s"), ""]],
+                 ["origin", [A("cls"), "Origin"], z.enc_val(org, toks)]]
+    dc = False
+    for f in plan.fields:
+        fields_sx.append([f["name"], z.enc_ty(f["ty"]), z.enc_val(values[f["name"]], toks)])
+        key = _flags_text(f).strip() or "[plain]"
+        STATS["fields_by_flags"][key] = STATS["fields_by_flags"].get(key, 0) + 1
+        dc = dc or z.dont_care(values[f["name"]], f["ty"])
+    desc = (note + f"class {cls.__name__}(" + "; ".join(
+        f"{f['name']}: {z.show_ty(f['ty'])}{_flags_text(f)} = {z.show_val(values[f['name']])}"
+        for f in plan.fields) + f"; origin = {z.show_val(org)})" + (f" positional={len(args)}" if args else ""))
+    nontriv = len(plan.fields) >= 2
+    node_on, real_on = _build(cls, args, kwargs, True)
+    if dc:
+        real_on = dumps([A("dontcare")])
+    yield Case("construct-on", dumps([A("construct"), True, [A("fields")] + fields_sx]), real_on, nontriv,
+               "RUNTIME_TYPE_CHECK=True " + desc, sig="construct|on")
+    if bad_origin:
+        return          # without validation a non-origin makes the id computation fail: not type validation
+    node_off, real_off = _build(cls, args, kwargs, False)
+    yield Case("construct-off", dumps([A("construct"), False, [A("fields")] + fields_sx]), real_off, nontriv,
+               "RUNTIME_TYPE_CHECK=False " + desc, sig="construct|off")
+    if node_on is not None and node_off is not None:
+        yield Case("construct-same", None, None, nontriv, desc, oracle_fail=_same_node(node_on, node_off),
+                   sig="construct|same-node")
+
+
 def _constructions(rng, n):
     vals = z.Values(rng)
     toks = z.ObjTokens()
     for _ in range(n):
-        # ---- class (optionally a base class with fields of its own)
-        specs = []          # (name, ty, init, child)
-        levels = [rng.randint(1, 4)] if rng.random() < 0.7 else [rng.randint(1, 3), rng.randint(1, 3)]
-        p_ok = rng.choice([1.0, 0.8, 0.6, 0.3])
-        fid = itertools.count()
-        per_level = []
-        for cnt in levels:
-            lv = []
-            for _k in range(cnt):
-                child = rng.random() < 0.35
-                ty = z.gen_child_ty(rng) if child else z.gen_ty(rng, rng.choice([0, 1, 1, 2]), nodes=False, origin=False)
-                if not child and rng.random() < 0.15:
-                    ty = ("nt", f"NTf{next(z._nt_counter)}", ty)      # top-level NewType (unwrapped by pyoak)
-                init = child or rng.random() < 0.8
-                lv.append((f"f{next(fid)}", ty, init, child))
-            per_level.append(lv)
-        values = {}
-        cls = ASTNode
-        ok_build = True
-        for lv in per_level:
-            spec = []
-            for (name, ty, init, child) in lv:
-                v = _gen_field_value(vals, ty, rng, child, rng.random() < p_ok)
-                if not init and not z._hashable(v):
-                    v = _gen_field_value(vals, ty, rng, child, True)
-                    if not z._hashable(v):
-                        v = None
-                values[name] = v
-                spec.append((name, z.render(ty), init, v))
-            # required (init) fields first, then the init=False ones with their defaults
-            spec.sort(key=lambda s: not s[2])
-            try:
-                cls = z.make_node_class(spec, base=cls)
-            except Exception as e:  # noqa  (not the subject of C13)
-                ok_build = False
-                break
-        if not ok_build:
+        k = next(z._cls_counter)
+        names = [f"C13Gen{k}"] if rng.random() < 0.7 else [f"C13Gen{k}B", f"C13Gen{k}"]
+        if rng.random() < 0.75:
+            r = _gen_plan(rng, vals, names)
+            if r is None:
+                continue
+            plan, p_ok = r
+            for _j in range(rng.choice([1, 1, 2])):
+                yield from _construct_cases(rng, vals, toks, plan, p_ok)
             continue
-        all_fields = [s for lv in per_level for s in lv]
-        kwargs = {name: values[name] for (name, ty, init, child) in all_fields if init}
-        bad_origin = rng.random() < 0.06
-        org = 5 if bad_origin else rng.choice([NO_ORIGIN, z.CODE_ORIGIN])
-        kwargs["origin"] = org
-        fields_sx = [["id", A("str"), [A("s"), ""]], ["content_id", A("str"), [A("s"), ""]],
-                     ["origin", [A("cls"), "Origin"], z.enc_val(org, toks)]]
-        dc = False
-        for (name, ty, init, child) in all_fields:
-            fields_sx.append([name, z.enc_ty(ty), z.enc_val(values[name], toks)])
-            dc = dc or z.dont_care(values[name], ty)
-        desc = (f"class {cls.__name__}(" + "; ".join(
-            f"{name}: {z.show_ty(ty)}{'' if init else ' [init=False]'} = {z.show_val(values[name])}"
-            for (name, ty, init, child) in all_fields) + f"; origin = {z.show_val(org)})")
-        nontriv = len(all_fields) >= 2
-        # ---- switch on
-        node_on, real_on = _build(cls, kwargs, True)
-        if dc:
-            real_on = dumps([A("dontcare")])
-        yield Case("construct-on", dumps([A("construct"), True, [A("fields")] + fields_sx]), real_on, nontriv,
-                   "RUNTIME_TYPE_CHECK=True " + desc, sig="construct|on")
-        if bad_origin:
-            continue        # without validation a non-origin makes the id computation fail: not type validation
-        # ---- switch off
-        node_off, real_off = _build(cls, kwargs, False)
-        yield Case("construct-off", dumps([A("construct"), False, [A("fields")] + fields_sx]), real_off, nontriv,
-                   "RUNTIME_TYPE_CHECK=False " + desc, sig="construct|off")
-        if node_on is not None and node_off is not None:
-            yield Case("construct-same", None, None, nontriv, desc, oracle_fail=_same_node(node_on, node_off),
-                       sig="construct|same-node")
+        # two node classes with the SAME names (a class factory called twice in one module: pyoak allows that)
+        # and unrelated annotations, constructed alternately in both orders
+        r1, r2 = _gen_plan(rng, vals, names), _gen_plan(rng, vals, names)
+        if r1 is None or r2 is None:
+            continue
+        STATS["same_named_pairs"] += 1
+        order = [r1, r2, r1, r2] if rng.random() < 0.5 else [r2, r1, r2]
+        for i, (plan, p_ok) in enumerate(order):
+            tag = "first" if plan is r1[0] else "second"
+            yield from _construct_cases(rng, vals, toks, plan, p_ok,
+                                        note=f"[{tag} of two same-named classes, construction #{i + 1}] ")
     assert pconfig.RUNTIME_TYPE_CHECK is False
 
 
